@@ -218,6 +218,13 @@ class Engine:
                 spin(2)
             except BaseException:
                 pass
+        if self.world.store_url.startswith("redis://") and self.state_engine is not None:
+            # the process is gone: its connections close and its listener thread ends (done explicitly, garbage collection order is not deterministic)
+            for st_ in (self.state_engine.asl_store, self.state_engine.executions, self.state_engine.execution_history):
+                try:
+                    st_.stop()
+                except Exception:
+                    pass
         for a in ("state_engine", "event_dispatcher", "task_dispatcher", "rest", "app", "client"):
             setattr(self, a, None)
 
@@ -341,6 +348,12 @@ class World:
             self.store_url = store_url
         elif store == "redis":
             self.store_url = "redis://localhost:6379"
+            import redis as fake_redis
+            fake_redis.reset()
+            srv = fake_redis.server_for(self.store_url)
+            srv.clock = self.clock          # key expiry follows the virtual clock
+            srv.auto_deliver = True         # invalidations are delivered at once here (their placement is C20's subject)
+            self.redis_server = srv
         else:
             World._n = getattr(World, "_n", 0) + 1
             self.store_url = os.path.join(env.workdir(), "ASL_store_%d.json" % World._n)
